@@ -77,6 +77,7 @@ def register_selection(reg):
                 "only-offsets-of-named-indexed-nodes": "forall(lambda x: implies(x in offsets, exists(lambda t: 0 <= t < it2 and in_entry(x, t))))",
                 "all-offsets-of-named-indexed-nodes": "forall(lambda t, m: implies(0 <= t < it2 and keyed(t) and 0 <= m < len(ind[ind_dict[nodes[t]]]), "
                                                       "ind[ind_dict[nodes[t]]][m] in offsets))",
+                "first-offset-of-each-indexed-node": "forall(lambda t: implies(0 <= t < it2 and keyed(t), ind[ind_dict[nodes[t]]][0] in offsets))",
             }),
         },
         assert_at={"before:offsets = set()": {
